@@ -169,6 +169,11 @@ Fixpoint search_loop (fuel : nat) (h : heap) (v : view) (slm : slmode) (vol pare
       else
         let name := pi_part pi1 in
         let last := pi_is_last pi1 in
+        if Nat.eqb parent vol && negb (match get h parent with
+                                      | Some n => check_permission (node_meta n) OpenLookup (v_user v)
+                                      | None => false end)
+        then {| sr_parent := Some parent; sr_child := None; sr_pi := out_pi pi1 saved; sr_err := EPermDenied |}
+        else
         match alookup str_eqb name (children h parent) with
         | None =>
             {| sr_parent := Some parent; sr_child := None; sr_pi := out_pi pi1 saved;
@@ -538,15 +543,17 @@ Definition rename (s : fsys) (v : view) (oldpath newpath : str) : fsys * res :=
                  (with_heap s (remove_child (add_child h0 np (pi_part (sr_pi rn)) oc) op (pi_part (sr_pi ro))), ROk) in
                match get h oc with
                | Some (NDir _ _) =>
-                   if negb (is_not_exist (sr_err rn))
-                   then (s, RFail (if win v then EW_AccessDenied
-                                   else match sr_child rn with
-                                        | Some nc => if node_is_dir h nc then sr_err rn else ENotADirectory
-                                        | None => ENotADirectory
-                                        end))
+                   let ndir := match sr_child rn with Some nc => node_is_dir h nc | None => false end in
+                   if ndir && negb (is_not_exist (sr_err rn)) then
+                     if match sr_child rn with Some nc => Nat.eqb nc oc | None => false end
+                        && negb (str_eqb oldpath newpath)
+                     then (s, ROk)
+                     else (s, RFail (if win v then EW_AccessDenied else sr_err rn))
                    else if Nat.eqb oc op
                            || is_prefix (pi_path (sr_pi ro) ++ [sepc (v_os v)]) (pi_path (sr_pi rn))
                    then (s, RFail EInvalidArgument)
+                   else if negb (is_not_exist (sr_err rn))
+                   then (s, RFail (if win v then EW_AccessDenied else ENotADirectory))
                    else move h
                | Some _ =>            (* file or symbolic link *)
                    if same then (s, ROk)
@@ -622,6 +629,7 @@ Definition truncate (s : fsys) (v : view) (name : str) (size : Z) : fsys * res :
            match get (f_heap s) c with
            | Some (NFile d k i m) =>
                if Z.ltb size 0 then (s, RFail EInvalidArgument)
+               else if negb (check_permission m OpenWrite (v_user v)) then (s, RFail EPermDenied)
                else (with_heap s (upd (f_heap s) c (NFile (truncate_data d size) k i m)), ROk)
            | _ => (s, RFail EIsADirectory)
            end
